@@ -186,11 +186,18 @@ func (h *Sources) Walk(pos int) {
 		h.hpos = 0
 	}
 
+	from := h.hpos
 	h.hpos += pos
 
 	switch {
 	case h.hpos < -1:
+		// Past the input line: bring it back if we came from a history line.
+		if from > 0 {
+			h.restoreLineBuffer()
+		}
+
 		h.hpos = -1
+
 		return
 	case h.hpos == 0:
 		h.restoreLineBuffer()
